@@ -308,15 +308,32 @@ func ruleFailedSenderReleasesCloser(c *core.Ctx, e *ev, R string) {
 		return
 	}
 	K := e.r.Closer
-	core.AllInstrs(K, func(in ssa.Instruction) {
+	// the predicate may be called from Close itself or from a wait helper Close calls
+	scope := []*ssa.Function{K}
+	inScope := map[*ssa.Function]bool{K: true}
+	for d := 0; d < 2; d++ {
+		for _, g := range append([]*ssa.Function{}, scope...) {
+			core.AllInstrs(g, func(in ssa.Instruction) {
+				if call, ok := in.(*ssa.Call); ok && !call.Call.IsInvoke() {
+					if f := call.Call.StaticCallee(); f != nil && p.InRepo(f) && !inScope[f] && f.Signature.Results().Len() == 0 && f.Signature.Recv() != nil {
+						inScope[f] = true
+						scope = append(scope, f)
+					}
+				}
+			})
+		}
+	}
+	seenPred := map[*ssa.Function]bool{}
+	scan := func(in ssa.Instruction) {
 		call, ok := in.(*ssa.Call)
 		if !ok || call.Call.IsInvoke() {
 			return
 		}
 		f := call.Call.StaticCallee()
-		if f == nil || !p.InRepo(f) || f.Signature.Results().Len() != 1 || !isBool(f.Signature.Results().At(0).Type()) {
+		if f == nil || seenPred[f] || !p.InRepo(f) || f.Signature.Results().Len() != 1 || !isBool(f.Signature.Results().At(0).Type()) {
 			return
 		}
+		seenPred[f] = true
 		q := &core.Query{P: p, Pred: func(x ssa.Instruction) bool { return e.runningLoad(x) || e.queueLen(x) }}
 		if !q.May(f, nil) {
 			return
@@ -359,7 +376,10 @@ func ruleFailedSenderReleasesCloser(c *core.Ctx, e *ev, R string) {
 			}
 		}
 		c.Check(good, R, "failed-sender-releases-closer/"+core.FName(f), p.Pos(f.Pos()), "a failed sender releases a waiting Close immediately", why)
-	})
+	}
+	for _, g := range scope {
+		core.AllInstrs(g, scan)
+	}
 }
 
 func runC06(c *core.Ctx) {
